@@ -536,9 +536,18 @@ pub fn gen_schema(rng: &mut Rng, cfg: &GenCfg) -> SchemaModel {
     let pool_names = ["id", "name", "title", "body", "author", "posts", "comments", "tags", "owner", "node", "search", "count", "color", "role", "createdAt", "meta", "items", "score"];
     let n_sigs = 8 + rng.below(8);
     let mut sigs: Vec<FieldDef> = vec![];
+    let mut hier_next = 0usize;
     for name in pool_names.iter().take(n_sigs) {
         let to_composite = rng.chance(2, 5);
-        let base = if to_composite { composite[rng.below(composite.len())].clone() } else { out_targets[rng.below(out_targets.len())].clone() };
+        let base = if to_composite && cfg.iface_hierarchies && hier_next < iface_names.len() && rng.chance(2, 3) {
+            // the pool reaches the interfaces one after the other, so that documents can select into every hierarchy
+            hier_next += 1;
+            iface_names[hier_next - 1].clone()
+        } else if to_composite {
+            composite[rng.below(composite.len())].clone()
+        } else {
+            out_targets[rng.below(out_targets.len())].clone()
+        };
         let ty = if *name == "id" { Ty::non_null(Ty::named("ID")) } else { wrap(rng, Ty::named(&base), cfg.max_depth) };
         let mut args = vec![];
         if *name != "id" && rng.chance(1, 3) {
@@ -652,6 +661,25 @@ pub fn gen_schema(rng: &mut Rng, cfg: &GenCfg) -> SchemaModel {
         t.desc = gen_desc(rng, cfg);
         let mut must: Vec<FieldDef> = vec![];
         let is_root = !obj_names.contains(name);
+        if cfg.iface_hierarchies && is_root {
+            // the root types reach the hierarchy: most interface-typed fields of the pool, and 1–2 more fields of composite type
+            let abs: Vec<&FieldDef> = sigs.iter().filter(|s| iface_names.iter().any(|i| i == s.ty.unwrapped())).collect();
+            for s in &abs {
+                if rng.chance(2, 3) && !must.iter().any(|m| m.name == s.name) {
+                    must.push((*s).clone());
+                }
+            }
+            let comp: Vec<&FieldDef> = sigs.iter().filter(|s| composite.iter().any(|c| c == s.ty.unwrapped())).collect();
+            for _ in 0..(1 + rng.below(2)) {
+                let from = if !abs.is_empty() && rng.chance(2, 3) { &abs } else { &comp };
+                if !from.is_empty() {
+                    let s = from[rng.below(from.len())];
+                    if !must.iter().any(|m| m.name == s.name) {
+                        must.push(s.clone());
+                    }
+                }
+            }
+        }
         if cfg.iface_hierarchies {
             if !is_root && rng.chance(5, 6) {
                 // 1–3 interfaces from anywhere in the DAG, closed under "implements", in random order
